@@ -542,6 +542,43 @@ theorem blocks_of_one_etag_are_one_listing (t : Table) (e0 : Nat) (evs : List BE
   subst heq
   exact ⟨o0', h0, a1, a2, a3.symm, b3.symm, a6.symm, b6.symm, by rw [a6, a5]; exact a7, by rw [b6, b5]; exact b7⟩
 
+def payloadOf : RespB → Bytes
+  | .blk p _ _ => p
+  | .err _ => []
+
+/-- (reassembly) a client that has collected, in any order and with anything in between, the responses to its requests for
+blocks `0 … n-1` under ONE ETag, `n` the block count of the listing at its block 0, has exactly that listing -/
+theorem etag_blocks_reassemble (t : Table) (e0 : Nat) (evs : List BEv)
+    (hok : OkB (runB (BState.init t e0) evs)) (hw : e0 + evs.length < 2 ^ 64)
+    (f : Nat → Obs) (E n : Nat) (hn : 0 < n)
+    (hf : ∀ i, i < n → f i ∈ runB (BState.init t e0) evs ∧ (f i).req.num = i ∧
+      ∃ p m, (f i).resp = RespB.blk p m (some E))
+    (hnb : n = nblocks (getListing (f 0).table (f 0).req.opts).length (2 ^ ((f 0).req.szx + 4))) :
+    (List.range n).flatMap (fun i => payloadOf (f i).resp) = getListing (f 0).table (f 0).req.opts := by
+  obtain ⟨h0m, h0n, p0, m0, h0r⟩ := hf 0 hn
+  have hcong : ∀ i ∈ List.range n, payloadOf (f i).resp =
+      block (getListing (f 0).table (f 0).req.opts) (2 ^ ((f 0).req.szx + 4)) i := by
+    intro i hi
+    obtain ⟨him, hin, p, m, hir⟩ := hf i (List.mem_range.mp hi)
+    obtain ⟨o0, h0, a1, a2, _, _, _, _, _, a8⟩ :=
+      blocks_of_one_etag_are_one_listing t e0 evs hok hw (f 0) (f i) h0m him p0 p m0 m E h0r hir
+    have : o0 = f 0 := issued_inj _ (etags_never_reused t e0 evs hok hw) o0 (f 0) h0 h0m E a1 h0n a2
+      (by rw [h0r]; rfl)
+    subst this
+    rw [hir, hin] at *
+    exact a8
+  have hfm : ∀ (l : List Nat) (g h : Nat → Bytes), (∀ i ∈ l, g i = h i) → l.flatMap g = l.flatMap h := by
+    intro l g h hgh
+    induction l with
+    | nil => rfl
+    | cons a l ih =>
+      rw [List.flatMap_cons, List.flatMap_cons, hgh a (by simp), ih (fun i hi => hgh i (List.mem_cons_of_mem _ hi))]
+  rw [hfm _ _ _ hcong, hnb]
+  obtain ⟨body, _, hb, hr⟩ := get_reassembles (f 0).table (f 0).req.opts (hok _ h0m).2 (2 ^ ((f 0).req.szx + 4))
+    (Nat.pow_pos (by omega))
+  subst hb
+  exact hr
+
 /-- a run of 7 events with a table change and a timeout in the middle of a transfer: `</aaaaaaaaaaaaaaaaaa>` (21 bytes, two
 blocks of 16); block 0 (ETag 1), `</b>` added, block 1 still comes from the OLD listing under ETag 1; a restart gets the
 NEW listing under ETag 2; after the timeout block 1 is served from the current table without ETag.  The hypotheses of the
